@@ -20,12 +20,73 @@ ASSUMPTIONS = suite.ENGINE_ASSUMPTIONS + [
 ]
 
 
+def _resumed_runs(env: Env, out: Outcome, n: int) -> None:
+    """resumed runs: (a) snapshot at a quiet point mid-run, stop, resume from JSON; (b) snapshot AFTER the run ended (a StopEvent
+    racing with other work leaves queued / in-progress invocations behind; is_running is False) and run the restored context
+    again.  mon_c11 compares, after every tick of the resumed run, the state rebuilt from its tick log with the live state."""
+    import copy
+    import random
+
+    from ..engine import live, specgen
+    rng = random.Random(env.rng.randrange(1 << 30))
+    jobs = []
+    if env.replay is not None and isinstance(env.replay.get("payload", {}).get("case"), dict) and "resume" in env.replay["payload"]["case"]:
+        c = env.replay["payload"]["case"]["resume"]
+        jobs.append((c["spec"], c["seed"], c.get("actions1"), c.get("actions2")))
+    for _ in range(n):
+        spec = specgen.gen_spec(rng, family=rng.choice(["general", "fanin", "general"]), allow_timeout=False)
+        for st in spec["steps"]:
+            if (st.get("retry") or {}).get("kind") == "delay":
+                st["retry"] = {"kind": "attempts", "n": 3, "wait": st["retry"].get("wait", 0)}
+        spec["externals"] = [e for e in spec.get("externals", []) if e["op"] == "send"]
+        spec.pop("timeout", None)
+        if rng.random() < 0.5:
+            spec["externals"].append({"op": "snapshot_stop", "after_quiet": rng.choice([0, 1, 1, 2, 3])})
+        else:
+            spec["snapshot_after_end"] = True
+        jobs.append((spec, rng.randrange(1 << 30), None, None))
+    resumed = []
+    for spec, seed, a1, a2 in jobs:
+        tr1 = live.run_spec(spec, seed=seed, replay_actions=a1)
+        out.evaluations += 1
+        snaps = [s for s in tr1.snapshots if s.get("stopped") or s.get("after_end")]
+        if not snaps:
+            out.count("resume:no_snapshot")
+            continue
+        d = snaps[0]["dict"]
+        pend = sum(len(w.get("queue", [])) + len(w.get("in_progress", [])) for w in d.get("workers", {}).values()) if isinstance(d, dict) else 0
+        kind = "after_end" if snaps[0].get("after_end") else "mid_run"
+        out.count(f"resume:{kind}:pending:{min(pend, 3)}")
+        if kind == "after_end" and not pend:
+            continue
+        spec2 = copy.deepcopy(spec)
+        spec2.pop("snapshot_after_end", None)
+        spec2["externals"] = copy.deepcopy([e for e in getattr(tr1, "remaining_externals", []) if e["op"] == "send"])
+        spec2["_resumed"] = True
+        tr2 = live.run_spec(spec2, seed=seed + 1, replay_actions=a2, resume_from=d)
+        resumed.append(tr2)
+        out.count("resume:outcome:" + tr2.outcome[0])
+        if pend:
+            out.nontrivial(("resume", kind, repr(spec), tuple(tr1.actions)))
+        for v in monitors.mon_c11(tr2):
+            v.replay = {"resume": {"spec": spec, "seed": seed, "actions1": tr1.actions, "actions2": tr2.actions}}
+            out.violations.append(v)
+    suite.runner_corr(out, resumed, "engine-runner-resumed")
+
+
 def run(env: Env) -> Outcome:
     out = Outcome()
     out.rule = ("live scripted workflows incl. snapshots; after every processed tick the real rebuild_state_from_ticks is compared with the live state; "
                 "non-trivial = more than 2 ticks; distinct by (spec, schedule)")
     suite.direct_corr(env, out, env.budget(1500, 30000))
-    suite.live_runs(env, out, env.budget(250, 5000), [monitors.mon_c11], extra_specs=suite.load_corpus("C11"))
+    def attempt_based(spec: dict, rng) -> dict:
+        for st in spec["steps"]:
+            if (st.get("retry") or {}).get("kind") == "delay":
+                # elapsed-time policies are outside the stated guard (the replay runs on a later clock)
+                st["retry"] = {"kind": "attempts", "n": 3, "wait": st["retry"].get("wait", 0)}
+        return spec
+
+    suite.live_runs(env, out, env.budget(250, 5000), [monitors.mon_c11], extra_specs=suite.load_corpus("C11"), mutate_spec=attempt_based)
 
     def many_snapshots(spec: dict, rng) -> dict:
         # several ctx.to_dict() calls on one live handler, at different quiet points (work in flight in between)
@@ -39,4 +100,5 @@ def run(env: Env) -> Outcome:
 
     suite.live_runs(env, out, env.budget(120, 2400), [monitors.mon_c11], gen_kwargs={"family": "fanin"}, mutate_spec=many_snapshots)
     suite.live_runs(env, out, env.budget(80, 1600), [monitors.mon_c11], gen_kwargs={"family": "retry"}, mutate_spec=many_snapshots)
+    _resumed_runs(env, out, env.budget(120, 2400))
     return out
